@@ -40,7 +40,7 @@ pub fn find_prev_line_break_pos(
     loop {
         cursor -= 1;
 
-        if cursor >= bytes.len() || cursor == 0 {
+        if cursor >= bytes.len() {
             break None;
         }
 
@@ -52,6 +52,11 @@ pub fn find_prev_line_break_pos(
                     break None;
                 }
             }
+        }
+
+        // The first byte is examined as well: a file may begin with a line break.
+        if cursor == 0 {
+            break None;
         }
     }
 }
